@@ -4,16 +4,45 @@ import os, sys
 sys.path.insert(0, os.path.join(os.path.dirname(os.path.abspath(__file__)), '..'))
 import common
 
+def stream_parse_plural_forms(chk, C, count, tie_ok):
+    """the real gettext.parse_plural_forms (both values of `strict`) against the model's reader (`parsepf`, `parsepfs`) and, on the same
+    inputs, against the definitions regenerated from the source (`gparsepf`, `gparsepfs`)"""
+    from lib import gettext as lg
+    subjects = ['', 'nplurals=1; plural=0', 'nplurals=1; plural=0;', 'x nplurals=2; plural=n != 1; y', 'nplurals=2; plural=(;', 'nplurals=0; plural=0;',
+                'nplurals=3;\t plural=n%3', 'nplurals=1;plural=;', 'nplurals=2; plural=n>1;;', 'nplurals=2; plural=n n;']
+    while len(subjects) < count:
+        subjects.append(C.gen_search_subject(chk.rng) if chk.rng.random() < 0.5 else C.gen_header_value(chk.rng))
+    def run(s, strict):
+        try:
+            r = lg.parse_plural_forms(s, strict=strict)
+        except lg.PluralFormsSyntaxError:
+            return 'err syntax'
+        except ValueError:
+            return 'err ValueError'
+        except Exception as exc:
+            return 'err crash ' + type(exc).__name__
+        return f'ok {r[0]}' if strict else f'ok {r[0]} {C.H.hexs(r[2])} {C.H.hexs(r[3])}'
+    for strict, op, name in ((False, 'parsepf', 'parse-plural-forms'), (True, 'parsepfs', 'parse-plural-forms-strict')):
+        outs = [run(s, strict) for s in subjects]
+        chk.stream(name, [f'checkplurals {op} ' + C.H.hexs(s) for s in subjects], outs)
+        if tie_ok:
+            chk.stream(name + '-generated', [f'checkplurals g{op} ' + C.H.hexs(s) for s in subjects], outs)
+
 def main():
     chk = common.Check('C07')
     import C07_common as C
-    proved = chk.prove('I18n.Props.C07', generated=('intexpr', 'grammar', 'pluralforms'))
-    driver_ok = os.path.exists(common.driver_path()) and not any('untranslatable' in s for s in chk.lean.translation.values())
+    proved = chk.prove('I18n.Props.C07', generated=('intexpr', 'grammar', 'pluralforms', 'gettextpf'), extra_targets=())
+    # the tie (first part): parse_plural_forms regenerated from the current lib/gettext.py and proved equal to the model's reader (Props/C07Tie.lean)
+    tie_ok = common.prove_tie(chk, 'I18n.Props.C07Tie', ('gettextpf',),
+                              'parse_plural_forms regenerated from the current lib/gettext.py is no longer proved equal to CheckPlurals.parsePluralForms / '
+                              'parsePluralFormsStrict (generated_parse_plural_forms_*_eq_model and their corollaries)')
+    driver_ok = os.path.exists(common.driver_path()) and not any('untranslatable' in s for k, s in chk.lean.translation.items() if k != 'gettextpf')
     count = 12000 if chk.thorough else 2500
     metas = []
     if driver_ok:
         C.stream_header_search(chk, 12000 if chk.thorough else 3000)
         dis, metas = C.stream_check_plurals(chk, count)
+        stream_parse_plural_forms(chk, C, 6000 if chk.thorough else 1500, tie_ok)
     else:
         chk.broken.append({'kind': 'correspondence', 'stream': 'check-plurals', 'problem': 'driver could not be rebuilt'})
         C.H.ready()
@@ -55,6 +84,8 @@ def main():
              'duplicates) x catalog shapes (0/1/2 distinct msgstr[] counts, untranslated, obsolete, fuzzy) x languages of the registry or none x template flag; '
              'non-trivial = distinct header value list',
         trusted=['Lean 4.33 kernel', 'axioms: propext, Classical.choice, Quot.sound only',
+                 'parse_plural_forms is tied by translation + proof: tools/translate/gettextpf2lean.py (over tools/translate/pytr; the match object of the pinned header regex is the model\'s scanner) is trusted, '
+                 'the regenerated reader is PROVED equal to parsePluralForms / parsePluralFormsStrict (Props/C07Tie.lean) and runs against CPython in the parse-plural-forms*-generated streams',
                  'Spec.PluralFormsRe: list-of-successes semantics of the regex fragment (literal, set, greedy single-character repeat, x?, group) as the meaning of re.search',
                  'pluralforms2lean translator (re._parser tree, registry as loaded by lib.ling, codomain_limit / format_range max from the AST of check_plurals)',
                  'py2lean translator for the three expression analyses; hand-written model of check_plurals / parse_plural_forms tied by the check-plurals stream',
